@@ -53,7 +53,12 @@ fn mint(cn: &str, san: Option<&str>, ca: bool, issuer: Option<(&X509, &PKey<Priv
         Some((icert, ikey)) => {
             b.set_issuer_name(icert.subject_name()).unwrap();
             if let Some(s) = san {
-                let ext = SubjectAlternativeName::new().dns(s).build(&b.x509v3_context(Some(icert), None)).unwrap();
+                let mut sb = SubjectAlternativeName::new();
+                match s.strip_prefix("ip:") {
+                    Some(ip) => sb.ip(ip),
+                    None => sb.dns(s),
+                };
+                let ext = sb.build(&b.x509v3_context(Some(icert), None)).unwrap();
                 b.append_extension(ext).unwrap();
             }
             b.sign(ikey, MessageDigest::sha256()).unwrap();
@@ -78,6 +83,10 @@ pub struct Pki {
     /// (chain, expired, nameOK) -> port of the TLS listener presenting that certificate
     pub ports: Vec<((String, bool, bool), u16)>,
     pub proxy_port: u16,
+    /// TLS listeners on [::1] presenting a private-CA certificate: nameOK -> port (address in the certificate / a DNS name only)
+    pub v6_ports: Vec<(bool, u16)>,
+    /// (tls13, nameOK) -> port of a peer that presents the genuine private-CA certificate but signs with another key
+    pub forged_ports: Vec<((bool, bool), u16)>,
 }
 
 static PKI: OnceLock<Pki> = OnceLock::new();
@@ -164,8 +173,10 @@ fn serve_connect_proxy(l: TcpListener) {
             }
             let line = String::from_utf8_lossy(&head).to_string();
             // CONNECT host:port HTTP/1.1 -> the origin is the local listener on that port
-            let port: u16 = line.split_whitespace().nth(1).and_then(|t| t.rsplit(':').next()).and_then(|p| p.parse().ok()).unwrap_or(0);
-            let Ok(up) = TcpStream::connect_timeout(&SocketAddr::from(([127, 0, 0, 1], port)), Duration::from_secs(2)) else {
+            let target = line.split_whitespace().nth(1).unwrap_or("").to_string();
+            let port: u16 = target.rsplit(':').next().and_then(|p| p.parse().ok()).unwrap_or(0);
+            let upstream: SocketAddr = if target.starts_with('[') { SocketAddr::from((std::net::Ipv6Addr::LOCALHOST, port)) } else { SocketAddr::from(([127, 0, 0, 1], port)) };
+            let Ok(up) = TcpStream::connect_timeout(&upstream, Duration::from_secs(2)) else {
                 let _ = s.write_all(b"HTTP/1.1 502 Bad Gateway\r\n\r\n");
                 return;
             };
@@ -222,8 +233,91 @@ pub fn pki() -> &'static Pki {
         let pl = TcpListener::bind("127.0.0.1:0").unwrap();
         let proxy_port = pl.local_addr().unwrap().port();
         std::thread::spawn(move || serve_connect_proxy(pl));
-        Pki { ca_pem: ca.to_pem().unwrap(), ca_der: ca.to_der().unwrap(), self_certs, ports, proxy_port }
+        // origins named by an IPv6 literal: the certificate carries the address, or only a DNS name
+        let mut v6_ports = Vec::new();
+        for name_ok in [true, false] {
+            serial += 1;
+            let san = if name_ok { "ip:::1" } else { "good.test" };
+            let (cert, k) = mint("v6 origin", Some(san), false, Some((&ca, &ca_key)), false, serial);
+            let mut b = SslAcceptor::mozilla_intermediate_v5(SslMethod::tls()).unwrap();
+            b.set_private_key(&k).unwrap();
+            b.set_certificate(&cert).unwrap();
+            let acc = Arc::new(b.build());
+            if let Ok(l) = TcpListener::bind("[::1]:0") {
+                v6_ports.push((name_ok, l.local_addr().unwrap().port()));
+                std::thread::spawn(move || serve_tls(acc, l));
+            }
+        }
+        // peers that replay a genuine certificate of the private CA and sign the handshake with another key
+        #[allow(unused_mut)]
+        let mut forged_ports: Vec<((bool, bool), u16)> = Vec::new();
+        #[cfg(feature = "rustls-backend")]
+        for name_ok in [true, false] {
+            serial += 1;
+            let san = if name_ok { "good.test" } else { "other.test" };
+            let (cert, _its_key) = mint(san, Some(san), false, Some((&ca, &ca_key)), false, serial);
+            let other = key();
+            for tls13 in [false, true] {
+                forged_ports.push(((tls13, name_ok), forged::start(cert.to_der().unwrap(), other.private_key_to_pkcs8().unwrap(), tls13)));
+            }
+        }
+        Pki { ca_pem: ca.to_pem().unwrap(), ca_der: ca.to_der().unwrap(), self_certs, ports, proxy_port, v6_ports, forged_ports }
     })
+}
+
+#[cfg(feature = "rustls-backend")]
+mod forged {
+    //! A TLS server that presents a certificate whose private key it does not have (rustls lets a resolver pair
+    //! any certificate with any key).
+    use std::io::{Read, Write};
+    use std::net::TcpListener;
+    use std::sync::Arc;
+    use std::time::Duration;
+
+    use rustls::pki_types::{CertificateDer, PrivateKeyDer, PrivatePkcs8KeyDer};
+    use rustls::server::{ClientHello, ResolvesServerCert};
+    use rustls::sign::CertifiedKey;
+
+    #[derive(Debug)]
+    struct Fixed(Arc<CertifiedKey>);
+    impl ResolvesServerCert for Fixed {
+        fn resolve(&self, _hello: ClientHello<'_>) -> Option<Arc<CertifiedKey>> {
+            Some(self.0.clone())
+        }
+    }
+
+    pub fn start(cert_der: Vec<u8>, key_pkcs8: Vec<u8>, tls13: bool) -> u16 {
+        let versions: &[&'static rustls::SupportedProtocolVersion] = if tls13 { &[&rustls::version::TLS13] } else { &[&rustls::version::TLS12] };
+        let builder = rustls::ServerConfig::builder_with_protocol_versions(versions);
+        let key = builder.crypto_provider().key_provider.load_private_key(PrivateKeyDer::Pkcs8(PrivatePkcs8KeyDer::from(key_pkcs8))).unwrap();
+        let resolver = Fixed(Arc::new(CertifiedKey::new(vec![CertificateDer::from(cert_der)], key)));
+        let config = Arc::new(builder.with_no_client_auth().with_cert_resolver(Arc::new(resolver)));
+        let l = TcpListener::bind("127.0.0.1:0").unwrap();
+        let port = l.local_addr().unwrap().port();
+        std::thread::spawn(move || {
+            for sock in l.incoming() {
+                let Ok(sock) = sock else { continue };
+                let config = config.clone();
+                std::thread::spawn(move || {
+                    sock.set_read_timeout(Some(Duration::from_secs(3))).ok();
+                    let Ok(conn) = rustls::ServerConnection::new(config) else { return };
+                    let mut tls = rustls::StreamOwned::new(conn, sock);
+                    let mut req = Vec::new();
+                    let mut buf = [0u8; 1024];
+                    while !req.windows(4).any(|w| w == b"\r\n\r\n") {
+                        match tls.read(&mut buf) {
+                            Ok(0) | Err(_) => return,
+                            Ok(n) => req.extend_from_slice(&buf[..n]),
+                        }
+                    }
+                    let _ = tls.write_all(b"HTTP/1.1 200 OK\r\nContent-Length: 2\r\nConnection: close\r\n\r\nok");
+                    tls.conn.send_close_notify();
+                    let _ = tls.flush();
+                });
+            }
+        });
+        port
+    }
 }
 
 #[cfg(not(feature = "rustls-backend"))]
@@ -255,7 +349,29 @@ pub fn run(sc: &Value) -> Vec<String> {
     let chain = gs(sc, "chain").to_string();
     let expired = gb(sc, "expired");
     let name_ok = gb(sc, "nameOK");
-    let port = p.ports.iter().find(|x| x.0 == (chain.clone(), expired, name_ok)).unwrap().1;
+    let pop = sc.get("pop").and_then(|x| x.as_bool()).unwrap_or(true);
+    let v6 = gs(sc, "host") == "ipv6";
+    // the listener(s) this row talks to: (port, host as the URL names it, TLS version label)
+    let variants: Vec<(u16, &str, &str)> = if !pop {
+        // only the rustls harness can play a peer without the certificate's key
+        p.forged_ports.iter().filter(|x| x.0 .1 == name_ok).map(|x| (x.1, "good.test", if x.0 .0 { "1.3" } else { "1.2" })).collect()
+    } else if v6 {
+        p.v6_ports.iter().filter(|x| x.0 == name_ok).map(|x| (x.1, "[::1]", "-")).collect()
+    } else {
+        vec![(p.ports.iter().find(|x| x.0 == (chain.clone(), expired, name_ok)).unwrap().1, "good.test", "-")]
+    };
+    let mut out = Vec::new();
+    for (port, url_host, tlsver) in variants {
+        out.push(run_one(sc, p, port, url_host, tlsver));
+    }
+    out
+}
+
+fn run_one(sc: &Value, p: &'static Pki, port: u16, url_host: &str, tlsver: &str) -> String {
+    let chain = gs(sc, "chain").to_string();
+    let expired = gb(sc, "expired");
+    let name_ok = gb(sc, "nameOK");
+    let pop = sc.get("pop").and_then(|x| x.as_bool()).unwrap_or(true);
     // every test host name resolves to the loopback listener of the wanted variant
     attohttpc::verif::set_resolver(Some(Box::new(move |host, prt| {
         if host.ends_with(".test") {
@@ -275,14 +391,14 @@ pub fn run(sc: &Value) -> Vec<String> {
         let url = match path {
             "connect" => {
                 ps = ps.https_proxy(format!("http://127.0.0.1:{}", p.proxy_port).parse::<url::Url>().unwrap());
-                format!("https://good.test:{}/x", port)
+                format!("https://{}:{}/x", url_host, port)
             }
             "httpsproxy" => {
                 // the TLS listener plays an https proxy for a plain http URL: its certificate must match the proxy's name
                 ps = ps.http_proxy(format!("https://good.test:{}", port).parse::<url::Url>().unwrap());
                 "http://plain.test/x".to_string()
             }
-            _ => format!("https://good.test:{}/x", port),
+            _ => format!("https://{}:{}/x", url_host, port),
         };
         session.proxy_settings(ps.build());
         session.connect_timeout(Duration::from_secs(3));
@@ -328,7 +444,8 @@ pub fn run(sc: &Value) -> Vec<String> {
         Ok(Err(e)) => ("err", crate::exchange::err_kind(&e)),
         Err(pn) => ("panic", panic_msg(&pn)),
     };
-    vec![json!({"ev":"tls","id":gs(sc,"id"),"chain":chain,"expired":expired,"nameOK":name_ok,"certs":certs,"hosts":hosts,"root":gb(sc, "root"),"rootIsLeaf":leaf,
-        "path":path,"scope":scope,"res":r,"kind":kind,"backend":backend()})
-    .to_string()]
+    json!({"ev":"tls","id":format!("{}{}", gs(sc,"id"), if tlsver == "-" { String::new() } else { format!("/tls{}", tlsver) }),"chain":chain,"expired":expired,"nameOK":name_ok,
+        "certs":certs,"hosts":hosts,"root":gb(sc, "root"),"rootIsLeaf":leaf,
+        "path":path,"scope":scope,"res":r,"kind":kind,"backend":backend(),"pop":pop,"tlsver":tlsver,"host":if url_host.starts_with('[') { "ipv6" } else { "domain" }})
+    .to_string()
 }
